@@ -152,7 +152,7 @@ Definition sec_rest (pol p : Z) (h : sechdr) (sb : bytes) (kids : list node) : P
 Lemma section_body_inv pol buf i n p :
   section_body dec u2s rs rfv pol buf i = Ok (n, p) ->
   exists h kids, n = NSec h (sub 0 (s_ext h) buf) kids /\
-    4 <= zlen buf /\ s_ext h <= zlen buf /\
+    4 <= zlen buf /\ s_ext h <= zlen buf /\ s_hlen h <= s_ext h /\
     s_size3 h = rd 0 3 buf /\ s_type h = rd 3 1 buf /\ s_order h = i /\
     ((s_hlen h = 4 /\ (s_ext h = s_size3 h \/
                         (known_section (s_type h) = false /\ s_ext h = Z.min (s_size3 h) (zlen buf)))) \/
@@ -174,11 +174,12 @@ Proof.
     - injection Hhe as <- <-. left; auto. }
   clear Hhe.
   destruct (zlen buf <? ext) eqn:LE; [discriminate|].
+  destruct (ext <? hlen) eqn:LH0; [discriminate|].
   set (sbuf := sub 0 ext buf) in *.
   assert (Common : forall h kids, n = NSec h sbuf kids -> s_size3 h = size3 -> s_type h = stype -> s_ext h = ext ->
             s_hlen h = hlen -> s_order h = i -> sec_rest pol p h sbuf kids ->
           exists h kids, n = NSec h (sub 0 (s_ext h) buf) kids /\
-    4 <= zlen buf /\ s_ext h <= zlen buf /\
+    4 <= zlen buf /\ s_ext h <= zlen buf /\ s_hlen h <= s_ext h /\
     s_size3 h = rd 0 3 buf /\ s_type h = rd 3 1 buf /\ s_order h = i /\
     ((s_hlen h = 4 /\ (s_ext h = s_size3 h \/
                         (known_section (s_type h) = false /\ s_ext h = Z.min (s_size3 h) (zlen buf)))) \/
@@ -254,7 +255,7 @@ Lemma file_body_inv pol buf fo p :
   | None => p = pol
   | Some n =>
     exists h kids, n = NFile h (sub 0 (f_ext h) buf) kids /\
-      24 <= zlen buf /\ f_ext h <= zlen buf /\ file_hdr_from h buf /\
+      24 <= zlen buf /\ f_ext h <= zlen buf /\ f_dataoff h <= f_ext h /\ file_hdr_from h buf /\
       ((f_dataoff h = 24 /\ f_ext h = f_size3 h) \/
        (f_dataoff h = 32 /\ f_size3 h = 16777215 /\ 32 <= zlen buf /\ f_ext h = rd 24 8 buf)) /\
       (if supported_file (f_type h)
@@ -278,6 +279,7 @@ Proof.
   destruct ((size3 =? 16777215) && (ext =? U64 - 1)) eqn:Free.
   { injection H as <- <-. reflexivity. }
   destruct (zlen buf <? ext) eqn:LE; [discriminate|].
+  destruct (ext <? doff) eqn:LD0; [discriminate|].
   apply bind_ok in H as (nv & _ & H).
   set (fbuf := sub 0 ext buf) in *.
   assert (Common : forall h kids, fo = Some (NFile h fbuf kids) -> file_hdr_from h buf ->
@@ -289,7 +291,7 @@ Proof.
      | None => p = pol
      | Some n =>
     exists h kids, n = NFile h (sub 0 (f_ext h) buf) kids /\
-      24 <= zlen buf /\ f_ext h <= zlen buf /\ file_hdr_from h buf /\
+      24 <= zlen buf /\ f_ext h <= zlen buf /\ f_dataoff h <= f_ext h /\ file_hdr_from h buf /\
       ((f_dataoff h = 24 /\ f_ext h = f_size3 h) \/
        (f_dataoff h = 32 /\ f_size3 h = 16777215 /\ 32 <= zlen buf /\ f_ext h = rd 24 8 buf)) /\
       (if supported_file (f_type h)
@@ -389,12 +391,12 @@ Fixpoint files_tile (b : bytes) (off : Z) (kids : list node) : Prop :=
   | _ :: _ => False
   end.
 
-(* header fields are the little-endian decode of the node's own bytes (as far as the node
-   reaches: a node may be shorter than its header, see the note in Properties/C04.v) *)
+(* header fields are the little-endian decode of the node's own bytes; a node is never shorter
+   than its own header *)
 Definition sec_fields (h : sechdr) (sb : bytes) : Prop :=
-  zlen sb = s_ext h /\ (s_hlen h = 4 \/ s_hlen h = 8) /\
-  (4 <= s_ext h -> s_size3 h = rd 0 3 sb /\ s_type h = rd 3 1 sb) /\
-  (s_hlen h = 8 -> s_size3 h = 16777215 /\ (8 <= s_ext h -> s_ext h = rd 4 4 sb)) /\
+  zlen sb = s_ext h /\ (s_hlen h = 4 \/ s_hlen h = 8) /\ s_hlen h <= s_ext h /\
+  s_size3 h = rd 0 3 sb /\ s_type h = rd 3 1 sb /\
+  (s_hlen h = 8 -> s_size3 h = 16777215 /\ s_ext h = rd 4 4 sb) /\
   (s_hlen h = 4 -> s_ext h <= s_size3 h /\ (known_section (s_type h) = true -> s_ext h = s_size3 h)) /\
   match s_gd h with
   | Some g => s_type h = 2 /\ s_hlen h + 20 <= s_ext h /\
@@ -418,10 +420,10 @@ Definition sec_kids_ok (h : sechdr) (sb : bytes) (kids : list node) : Prop :=
   else kids = [].
 
 Definition file_fields (h : filehdr) (fb : bytes) : Prop :=
-  zlen fb = f_ext h /\ (f_dataoff h = 24 \/ f_dataoff h = 32) /\
-  (24 <= f_ext h -> file_hdr_from h fb) /\
+  zlen fb = f_ext h /\ (f_dataoff h = 24 \/ f_dataoff h = 32) /\ f_dataoff h <= f_ext h /\
+  file_hdr_from h fb /\
   (f_dataoff h = 24 -> f_ext h = f_size3 h) /\
-  (f_dataoff h = 32 -> f_size3 h = 16777215 /\ (32 <= f_ext h -> f_ext h = rd 24 8 fb)).
+  (f_dataoff h = 32 -> f_size3 h = 16777215 /\ f_ext h = rd 24 8 fb).
 
 Definition vol_fields (h : volhdr) (vb : bytes) : Prop :=
   zlen vb = v_length h /\ 64 <= v_length h /\ vol_hdr_from h vb.
@@ -527,7 +529,7 @@ Hypothesis rfv_post : forall pol b o r n p, bytes_ok b = true -> rfv pol b o r =
 Lemma section_body_post pol buf i n p : bytes_ok buf = true ->
   section_body dec u2s rs rfv pol buf i = Ok (n, p) -> post_sec buf n.
 Proof.
-  intros OK H. apply section_body_inv in H as (h & kids & -> & L4 & LE & F1 & F2 & F3 & HL & R).
+  intros OK H. apply section_body_inv in H as (h & kids & -> & L4 & LE & LH & F1 & F2 & F3 & HL & R).
   pose proof (zlen_nonneg buf) as ZB.
   assert (E0 : 0 <= s_ext h).
   { pose proof (rd_nonneg 0 3 buf OK). pose proof (rd_nonneg 4 4 buf OK). lia. }
@@ -538,13 +540,15 @@ Proof.
   cbn [node_ok]. unfold sec_rest in R. cbv zeta in R.
   assert (SF : sec_fields h sb /\ sec_kids_ok h sb kids /\ all_ok node_ok kids);
     [|tauto].
-  assert (Base : zlen sb = s_ext h /\ (s_hlen h = 4 \/ s_hlen h = 8) /\
-    (4 <= s_ext h -> s_size3 h = rd 0 3 sb /\ s_type h = rd 3 1 sb) /\
-    (s_hlen h = 8 -> s_size3 h = 16777215 /\ (8 <= s_ext h -> s_ext h = rd 4 4 sb)) /\
+  assert (Base : zlen sb = s_ext h /\ (s_hlen h = 4 \/ s_hlen h = 8) /\ s_hlen h <= s_ext h /\
+    s_size3 h = rd 0 3 sb /\ s_type h = rd 3 1 sb /\
+    (s_hlen h = 8 -> s_size3 h = 16777215 /\ s_ext h = rd 4 4 sb) /\
     (s_hlen h = 4 -> s_ext h <= s_size3 h /\ (known_section (s_type h) = true -> s_ext h = s_size3 h))).
-  { split; [exact ZS|]. split; [lia|]. split; [|split].
-    - intros G. unfold sb. rewrite !rd_sub0 by lia. auto.
-    - intros G. split; [lia|]. intros G8. unfold sb. rewrite rd_sub0 by lia. lia.
+  { split; [exact ZS|]. split; [lia|]. split; [exact LH|].
+    assert (4 <= s_ext h) by lia.
+    split; [unfold sb; rewrite rd_sub0 by lia; auto|].
+    split; [unfold sb; rewrite rd_sub0 by lia; auto|]. split.
+    - intros G. split; [lia|]. unfold sb. rewrite rd_sub0 by lia. lia.
     - intros G. split; [lia|]. intros KS. destruct HL as [[_ [E|[KF _]]]|[? _]]; lia. }
   unfold sec_fields, sec_kids_ok.
   destruct (s_type h =? 2) eqn:T2.
@@ -560,14 +564,14 @@ Proof.
     + exists g, encap. split; [reflexivity|]. split; [exact T|].
       destruct Src as [?|(K & _ & D)]; [left; auto|right]. split; auto. rewrite <- ZS. exact D.
   - destruct R as (G & R). rewrite G.
-    assert (Fields : forall X Y : Prop, X -> Y -> (zlen sb = s_ext h /\ (s_hlen h = 4 \/ s_hlen h = 8) /\
-    (4 <= s_ext h -> s_size3 h = rd 0 3 sb /\ s_type h = rd 3 1 sb) /\
-    (s_hlen h = 8 -> s_size3 h = 16777215 /\ (8 <= s_ext h -> s_ext h = rd 4 4 sb)) /\
+    assert (Fields : forall X Y : Prop, X -> Y -> (zlen sb = s_ext h /\ (s_hlen h = 4 \/ s_hlen h = 8) /\ s_hlen h <= s_ext h /\
+    s_size3 h = rd 0 3 sb /\ s_type h = rd 3 1 sb /\
+    (s_hlen h = 8 -> s_size3 h = 16777215 /\ s_ext h = rd 4 4 sb) /\
     (s_hlen h = 4 -> s_ext h <= s_size3 h /\ (known_section (s_type h) = true -> s_ext h = s_size3 h)) /\
     s_type h <> 2 /\ X /\ Y)).
     { intros X Y HX HY. repeat split; try tauto; try lia. }
     destruct (s_type h =? 23) eqn:T23.
-    + destruct R as (LH & v & -> & Hv).
+    + destruct R as (LHv & v & -> & Hv).
       apply rfv_post in Hv as (vh & vk & -> & VL & Vok); [|apply bytes_ok_zskipn; auto].
       rewrite zlen_zskipn_gen in VL by lia.
       rewrite sub_0_zskipn in *.
@@ -593,7 +597,7 @@ Lemma file_body_post pol buf fo p : bytes_ok buf = true ->
   file_body nvar rs pol buf = Ok (fo, p) -> post_file buf fo.
 Proof.
   intros OK H. apply file_body_inv in H. destruct fo as [n|]; [|exact I].
-  destruct H as (h & kids & -> & L24 & LE & HF & HL & R).
+  destruct H as (h & kids & -> & L24 & LE & LD & HF & HL & R).
   assert (E0 : 0 <= f_ext h).
   { destruct HF as (_ & _ & _ & _ & _ & G6 & _).
     pose proof (rd_nonneg 20 3 buf OK). pose proof (rd_nonneg 24 8 buf OK). lia. }
@@ -603,10 +607,10 @@ Proof.
   exists h, kids. split; [reflexivity|]. split; [lia|].
   cbn [node_ok].
   assert (FF : file_fields h fb).
-  { unfold file_fields. split; [exact ZS|]. split; [lia|]. split; [|split].
-    - intros G. apply file_hdr_from_sub; auto.
+  { unfold file_fields. split; [exact ZS|]. split; [lia|]. split; [exact LD|]. split; [|split].
+    - apply file_hdr_from_sub; auto. lia.
     - lia.
-    - intros G. split; [lia|]. intros G32. unfold fb. rewrite rd_sub0 by lia. lia. }
+    - intros G. split; [lia|]. unfold fb. rewrite rd_sub0 by lia. lia. }
   split; [exact OKs|]. split; [exact FF|].
   destruct (supported_file (f_type h)).
   - apply (sections_loop_tile rs rs_post) in R; auto; [lia|].
@@ -1209,7 +1213,7 @@ Lemma section_buf d pol buf i n p : psec d pol buf i = Ok (n, p) ->
     (s_hlen h = 4 \/ (s_hlen h = 8 /\ 8 <= zlen buf /\ s_ext h = rd 4 4 buf)).
 Proof.
   destruct d as [|d]; [discriminate|]. rewrite parse_section_S. intros H.
-  apply section_body_inv in H as (h & kids & -> & L4 & LE & F1 & F2 & _ & HL & _).
+  apply section_body_inv in H as (h & kids & -> & L4 & LE & LH & F1 & F2 & _ & HL & _).
   exists h, kids. repeat split; auto. destruct HL as [[? _]|(? & ? & _ & ?)]; auto.
 Qed.
 
@@ -1229,7 +1233,7 @@ Lemma file_buf d pol buf n p : pfile d pol buf = Ok (Some n, p) ->
      (f_dataoff h = 32 /\ f_size3 h = 16777215 /\ 32 <= zlen buf /\ f_ext h = rd 24 8 buf)).
 Proof.
   destruct d as [|d]; [discriminate|]. rewrite parse_file_S. intros H.
-  apply file_body_inv in H as (h & kids & -> & L & LE & HF & HL & _).
+  apply file_body_inv in H as (h & kids & -> & L & LE & LD & HF & HL & _).
   exists h, kids. repeat split; auto; apply HF.
 Qed.
 
@@ -1298,3 +1302,237 @@ Lemma region_ok_stable d d' b r : (d <= d')%nat ->
 Proof. intros L. apply refines_ok, parse_region_refines_le, L. Qed.
 
 End Statements.
+
+(* ------------------------------------------------------------------ *)
+(* C05: a depth that suffices when nothing is decompressed             *)
+(* ------------------------------------------------------------------ *)
+
+Definition nf {A} (o : outcome A) : Prop := is_fuel o = false.
+
+Lemma nf_bind {A B} (x : outcome A) (f : A -> outcome B) :
+  nf x -> (forall a, x = Ok a -> nf (f a)) -> nf (bind x f).
+Proof. unfold nf. destruct x; simpl; auto. Qed.
+
+Lemma zlen_sub_le off len (b : bytes) : zlen (sub off len b) <= zlen b.
+Proof.
+  unfold sub. rewrite zlen_zfirstn_gen. unfold zlen, zskipn. rewrite skipn_length. lia.
+Qed.
+
+Lemma parse_blocks_nf n : forall b, nf (parse_blocks n b).
+Proof.
+  induction n as [|n IH]; intros b; cbn [parse_blocks]; [reflexivity|].
+  destruct (zlen b <? 8); [reflexivity|]. destruct (_ && _); [reflexivity|].
+  apply nf_bind; [apply IH|intros; reflexivity].
+Qed.
+
+Section NFLoopS.
+Variable rs : Z -> bytes -> Z -> outcome (node * Z).
+Variable M : Z.
+Hypothesis rs_nf : forall pol b i, bytes_ok b = true -> zlen b <= M -> nf (rs pol b i).
+Hypothesis rs_ext : forall pol b i n p, bytes_ok b = true -> rs pol b i = Ok (n, p) -> 0 <= sec_ext n.
+
+Lemma sections_loop_nf n : forall b pol off i,
+  bytes_ok b = true -> 0 <= off -> zlen b - off <= M ->
+  nf (sections_loop rs n b pol off i).
+Proof.
+  induction n as [|n IH]; intros b pol off i OK O0 LM; [reflexivity|]. cbn [sections_loop].
+  destruct (off <? zlen b) eqn:Lt; [|reflexivity].
+  apply nf_bind.
+  { apply rs_nf; [apply bytes_ok_zskipn, OK|]. rewrite zlen_zskipn_gen by lia. lia. }
+  intros [s pol'] Hs.
+  pose proof (rs_ext _ _ _ _ _ (bytes_ok_zskipn off b OK) Hs) as E.
+  destruct (sec_ext s =? 0) eqn:E0; [reflexivity|].
+  apply nf_bind; [|intros [r pol''] _; reflexivity].
+  pose proof (align4_bounds (off + sec_ext s)).
+  apply IH; auto; lia.
+Qed.
+End NFLoopS.
+
+Section NFLoopF.
+Variable rf : Z -> bytes -> outcome (option node * Z).
+Variable M : Z.
+Hypothesis rf_nf : forall pol b, bytes_ok b = true -> zlen b <= M -> nf (rf pol b).
+
+Lemma files_loop_nf n : forall data length pol off,
+  bytes_ok data = true -> zlen data <= M -> nf (files_loop rf n data length pol off).
+Proof.
+  induction n as [|n IH]; intros data length pol off OK LM; [reflexivity|]. cbn [files_loop].
+  destruct (off + 24 <=? length); [|reflexivity].
+  destruct (length <? align8 off + 24); [reflexivity|].
+  apply nf_bind.
+  { apply rf_nf; [apply bytes_ok_sub, OK|].
+    pose proof (zlen_sub_le (align8 off) (length - align8 off) data). lia. }
+  intros [[f|] pol'] _; [|reflexivity].
+  destruct (file_ext f =? 0); [reflexivity|].
+  apply nf_bind; [apply IH; auto|intros [[r pol''] fs] _; reflexivity].
+Qed.
+
+Lemma fv_body_nf pol data o r : bytes_ok data = true -> zlen data <= M ->
+  nf (fv_body rf pol data o r).
+Proof.
+  intros OK LM. unfold fv_body.
+  destruct (zlen data <? 64); [reflexivity|].
+  apply nf_bind; [apply parse_blocks_nf|]. intros blocks _.
+  destruct (set_polarity _ _); [|reflexivity].
+  destruct (zlen data <? _); [reflexivity|]. destruct (_ <? 64); [reflexivity|].
+  destruct (negb _); [reflexivity|].
+  apply nf_bind; [apply files_loop_nf; auto|intros [[files pol2] fs] _; reflexivity].
+Qed.
+End NFLoopF.
+
+Section NFFile.
+Variable nvar : bytes -> option bytes.
+Variable rs : Z -> bytes -> Z -> outcome (node * Z).
+Variable M : Z.
+Hypothesis rs_nf : forall pol b i, bytes_ok b = true -> zlen b <= M -> nf (rs pol b i).
+Hypothesis rs_ext : forall pol b i n p, bytes_ok b = true -> rs pol b i = Ok (n, p) -> 0 <= sec_ext n.
+
+Lemma file_body_nf pol buf : bytes_ok buf = true -> zlen buf <= M + 24 ->
+  nf (file_body nvar rs pol buf).
+Proof.
+  intros OK LM. unfold file_body.
+  destruct (zlen buf <? 24); [reflexivity|].
+  apply nf_bind.
+  { destruct (_ =? 16777215); [|reflexivity].
+    destruct (zlen buf <? 32); [|reflexivity].
+    destruct (forallb _ _); reflexivity. }
+  intros [ext doff] Hed.
+  assert (D0 : 24 <= doff).
+  { destruct (_ =? 16777215); [|injection Hed as <- <-; lia].
+    destruct (zlen buf <? 32); [|injection Hed as <- <-; lia].
+    destruct (forallb _ _); [injection Hed as <- <-; lia|discriminate]. }
+  destruct (_ && _); [reflexivity|].
+  destruct (zlen buf <? ext) eqn:LE; [reflexivity|].
+  apply nf_bind.
+  { destruct (_ && _); [|reflexivity]. destruct (_ <=? doff); reflexivity. }
+  intros nv _.
+  destruct (negb _); [reflexivity|].
+  apply nf_bind; [|intros [kids pol'] _; reflexivity].
+  apply (sections_loop_nf rs M rs_nf rs_ext); [apply bytes_ok_sub; auto|lia|].
+  pose proof (zlen_sub_le 0 ext buf). lia.
+Qed.
+End NFFile.
+
+Section NFSec.
+Variable dec : Z -> bytes -> option bytes.
+Variable u2s : bytes -> bytes.
+Variable rs : Z -> bytes -> Z -> outcome (node * Z).
+Variable rfv : Z -> bytes -> Z -> bool -> outcome (node * Z).
+Variable M : Z.
+Hypothesis nodec : forall k p, dec k p = None.
+Hypothesis rfv_nf : forall pol b o r, bytes_ok b = true -> zlen b <= M -> nf (rfv pol b o r).
+
+Lemma section_body_nf pol buf i : bytes_ok buf = true -> zlen buf <= M + 4 ->
+  nf (section_body dec u2s rs rfv pol buf i).
+Proof.
+  intros OK LM. unfold section_body.
+  destruct (zlen buf <? 4); [reflexivity|].
+  apply nf_bind.
+  { destruct (known_section _); [|reflexivity].
+    destruct (_ =? 16777215); [|reflexivity].
+    destruct (zlen buf <? 8); [reflexivity|].
+    destruct (_ =? 4294967295); reflexivity. }
+  intros [hlen ext] Hhe.
+  assert (H4 : 4 <= hlen).
+  { destruct (known_section _); [|injection Hhe as <- <-; lia].
+    destruct (_ =? 16777215); [|injection Hhe as <- <-; lia].
+    destruct (zlen buf <? 8); [discriminate|].
+    destruct (_ =? 4294967295); [discriminate|injection Hhe as <- <-; lia]. }
+  destruct (zlen buf <? ext); [reflexivity|].
+  set (sbuf := sub 0 ext buf).
+  assert (OKs : bytes_ok sbuf = true) by (apply bytes_ok_sub; auto).
+  pose proof (zlen_sub_le 0 ext buf) as LS. fold sbuf in LS.
+  destruct (rd 3 1 buf =? 2).
+  { destruct (zlen sbuf <? hlen + 20); [reflexivity|].
+    destruct (zlen sbuf <? rd (hlen + 16) 2 sbuf); [reflexivity|].
+    set (kind := if negb (Z.land (rd (hlen + 18) 2 sbuf) 1 =? 0) then codec_kind (sub hlen 16 sbuf) else 0).
+    apply nf_bind.
+    - destruct (kind =? 0); [reflexivity|].
+      destruct (slice _ _ _); [|reflexivity]. rewrite nodec. reflexivity.
+    - intros [encap kind'] Hek.
+      assert (encap = []).
+      { destruct (kind =? 0); [injection Hek as <- <-; reflexivity|].
+        destruct (slice _ _ _); [|discriminate]. rewrite nodec in Hek.
+        injection Hek as <- <-; reflexivity. }
+      subst encap. reflexivity. }
+  destruct (rd 3 1 buf =? 21).
+  { destruct (zlen sbuf <=? hlen); reflexivity. }
+  destruct (rd 3 1 buf =? 20).
+  { destruct (zlen sbuf <=? hlen + 2); reflexivity. }
+  destruct (rd 3 1 buf =? 23).
+  { destruct (zlen sbuf <=? hlen) eqn:LH; [reflexivity|].
+    apply nf_bind; [|intros [v pol'] _; reflexivity].
+    apply rfv_nf; [apply bytes_ok_zskipn, OKs|].
+    rewrite zlen_zskipn_gen by lia. pose proof (zlen_nonneg buf). lia. }
+  destruct (_ || _).
+  { destruct (zlen sbuf <=? hlen); reflexivity. }
+  reflexivity.
+Qed.
+End NFSec.
+
+Section NFLift.
+Variable dec : Z -> bytes -> option bytes.
+Variable u2s : bytes -> bytes.
+Variable nvar : bytes -> option bytes.
+Hypothesis nodec : forall k p, dec k p = None.
+
+Notation psec := (parse_section dec u2s nvar).
+Notation pfile := (parse_file dec u2s nvar).
+Notation pfv := (parse_fv dec u2s nvar).
+
+Lemma nodec_dec_ok : dec_ok dec.
+Proof. intros k p e _ H. rewrite nodec in H. discriminate. Qed.
+
+Theorem parse_nf d :
+  (forall pol b i, bytes_ok b = true -> zlen b < Z.of_nat d -> nf (psec d pol b i)) /\
+  (forall pol b, bytes_ok b = true -> zlen b + 1 < Z.of_nat d -> nf (pfile d pol b)) /\
+  (forall pol b o r, bytes_ok b = true -> zlen b + 2 < Z.of_nat d -> nf (pfv d pol b o r)).
+Proof.
+  induction d as [|d (IS & IF & IV)].
+  { split; [|split]; intros; pose proof (zlen_nonneg b); lia. }
+  split; [|split].
+  - intros pol b i OK L. rewrite parse_section_S.
+    apply (section_body_nf dec u2s _ _ (Z.of_nat d - 3)); auto; [|lia].
+    intros. apply IV; auto. lia.
+  - intros pol b OK L. rewrite parse_file_S.
+    apply (file_body_nf nvar _ (Z.of_nat d - 1)); auto; [| |lia].
+    + intros. apply IS; auto. lia.
+    + intros. eapply psec_ext; eauto. apply nodec_dec_ok.
+  - intros pol b o r OK L. rewrite parse_fv_S.
+    apply (fv_body_nf _ (Z.of_nat d - 2)); auto; [|lia].
+    intros. apply IF; auto. lia.
+Qed.
+
+Lemma parse_bios_nf d n : forall pol buf abs, bytes_ok buf = true -> zlen buf + 2 < Z.of_nat d ->
+  nf (parse_bios dec u2s nvar d n pol buf abs).
+Proof.
+  induction n as [|n IH]; intros pol buf abs OK L; cbn [parse_bios]; [reflexivity|].
+  destruct (find_fv_offset buf <? 0) eqn:L0; [reflexivity|].
+  assert (ZS : forall k, 0 <= k -> zlen (zskipn k buf) <= zlen buf).
+  { intros k Hk. rewrite zlen_zskipn_gen by lia. pose proof (zlen_nonneg buf). lia. }
+  apply nf_bind.
+  { apply parse_nf; [apply bytes_ok_zskipn, OK|]. specialize (ZS (find_fv_offset buf)). lia. }
+  intros [v pol'] Hv.
+  apply parse_fv_inv in Hv as (h & kids & -> & LL & _).
+  destruct (v_length h =? 0); [reflexivity|].
+  apply nf_bind; [|intros [r pol''] _; reflexivity].
+  apply IH; [apply bytes_ok_zskipn, OK|]. specialize (ZS (find_fv_offset buf + v_length h)). lia.
+Qed.
+
+(* with decompression disabled (or nothing decodable), depth [length + 3] always suffices *)
+Theorem parse_region_depth_suffices d buf : bytes_ok buf = true -> zlen buf + 2 < Z.of_nat d ->
+  is_fuel (parse_region dec u2s nvar d buf) = false.
+Proof. intros OK L. apply parse_bios_nf; auto. Qed.
+
+End NFLift.
+
+Lemma region_total_without_decompression dec u2s nvar : (forall k p, dec k p = None) ->
+  forall d buf, bytes_ok buf = true -> zlen buf + 2 < Z.of_nat d ->
+  (exists r, parse_region dec u2s nvar d buf = Ok r) \/
+  (exists e, parse_region dec u2s nvar d buf = Err e).
+Proof.
+  intros ND d buf OK L.
+  pose proof (parse_region_depth_suffices dec u2s nvar ND d buf OK L) as F.
+  pose proof (region_no_panic dec u2s nvar (nodec_dec_ok dec ND) d buf OK) as P.
+  destruct (parse_region dec u2s nvar d buf); try discriminate; eauto.
+Qed.
